@@ -6,10 +6,12 @@ definitions and the C06/C07 theorems unfold them, so that a change of a sign, a 
 normalisation or a format string in the source either breaks a proof or changes what the compiled
 model computes.  Everything that is not of the expected shape is refused."""
 import ast
+import copy
 import os
 from fractions import Fraction
 
 from .. import translate
+from . import normalize
 
 UP = "fairlearn/reductions/_moments/utility_parity.py"
 MO = "fairlearn/reductions/_moments/moment.py"
@@ -23,7 +25,104 @@ def _bad(msg):
 
 def _parse(repo, rel):
     with open(os.path.join(repo, rel)) as f:
-        return ast.parse(f.read())
+        return _prepare(normalize.parse(f.read()), rel)
+
+
+# locals of the pinned source in order of first binding (normalize.binding_order), per anchored method
+PINNED_LOCALS = {
+    UP: {
+        "UtilityParity.load_data": ["signed", "e", "g", "event_select", "group_event_select", "event_vals", "group_vals",
+                                    "col_count", "i"],
+        "UtilityParity.gamma": ["predictions", "pred", "g_signed"],
+        "UtilityParity.bound": [],
+        "UtilityParity.signed_weights": [],
+        "DemographicParity.load_data": ["_", "y_train", "sf_train", "cf_train", "base_event", "event"],
+        "TruePositiveRateParity.load_data": ["_", "y_train", "sf_train", "cf_train", "v", "base_event", "event"],
+        "FalsePositiveRateParity.load_data": ["_", "y_train", "sf_train", "cf_train", "v", "base_event", "event"],
+        "EqualizedOdds.load_data": ["_", "y_train", "sf_train", "cf_train", "v", "base_event", "event"],
+        "ErrorRateParity.load_data": ["_", "y_train", "sf_train", "cf_train", "utilities", "base_event", "event"],
+    },
+    ER: {
+        "ErrorRate.gamma": ["pred", "signed_errors", "total_fn_cost", "total_fp_cost", "error_value", "error"],
+        "ErrorRate.signed_weights": ["weights"],
+    },
+    BG: {
+        "ConditionalLossMoment.default_objective": [],
+        "ConditionalLossMoment.gamma": ["expect_attr"],
+        "ConditionalLossMoment.signed_weights": ["adjust", "row"],
+        "SquareLoss.__init__": [], "SquareLoss.eval": [], "AbsoluteLoss.__init__": [], "AbsoluteLoss.eval": [],
+    },
+}
+# numeric expressions / comparisons of the pinned source (commuted or mirrored spellings are brought back to these)
+PINNED_ARITH = [
+    "1 * (self.tags[_EVENT] == e)", "event_select * (self.tags[_GROUP_ID] == g)",
+    "event_select / self.prob_event[e] + -self.ratio * group_event_select / self.prob_group_event[e, g]",
+    "-self.ratio * event_select / self.prob_event[e] + group_event_select / self.prob_group_event[e, g]",
+    "self.utility_diff.T * predictions + self.utilities[:, 0]", "self.utility_diff * self.U.dot(lambda_vec)",
+    "-self.fp_cost + (self.fp_cost + self.fn_cost) * self.tags[_LABEL]", "(total_fn_cost + total_fp_cost) / self.total_samples",
+    "signed_errors[signed_errors > 0] * self.fn_cost", "-signed_errors[signed_errors < 0] * self.fp_cost",
+]
+PINNED_TESTS = ["signed_errors > 0", "signed_errors < 0", "y_train == 1", "y_train == 0", "self.tags[_EVENT] == e",
+                "self.tags[_GROUP_ID] == g"]
+READS = {"groupby", "size", "clip", "abs", "sum", "dot", "zeros", "ones", "mean"}
+SERIES = ["data", "index", "dtype", "name", "copy"]
+
+
+class _VstackList(ast.NodeTransformer):
+    """`np.vstack((a, b))` -> `np.vstack([a, b])` (any sequence of arrays is accepted)"""
+
+    def visit_Call(self, node):
+        self.generic_visit(node)
+        if ast.unparse(node.func) == "np.vstack" and node.args and isinstance(node.args[0], ast.Tuple):
+            node.args[0] = ast.copy_location(ast.List(elts=node.args[0].elts, ctx=ast.Load()), node.args[0])
+        return node
+
+
+U_LOOP_LOCALS = ["e", "g", "event_select", "group_event_select"]
+
+
+def _prepare_u_loop(fn):
+    """the `for e, g in self.prob_group_event.index:` loop of UtilityParity.load_data as a scope of its own: its locals
+    are not read outside it (checked), so they may be renamed / its temporaries inlined independently of the later
+    loops that reuse the names `e` and `g`"""
+    for k, st in enumerate(fn.body):
+        if isinstance(st, ast.For) and ast.unparse(st.iter) == "self.prob_group_event.index" and not st.orelse:
+            shell = ast.FunctionDef(name="_u_loop", args=ast.arguments(posonlyargs=[], args=[], kwonlyargs=[], kw_defaults=[],
+                                                                     defaults=[]), body=[st], decorator_list=[])
+            mine = set(normalize.binding_order(shell))
+            rest = fn.body[:k] + fn.body[k + 1:]
+            outside = {n.id for s_ in rest for n in ast.walk(s_) if isinstance(n, ast.Name)}
+            stores_after = {n.id for s_ in fn.body[k + 1:] for n in ast.walk(s_) if isinstance(n, ast.Name)
+                            and isinstance(n.ctx, ast.Store)}
+            before = {n.id for s_ in fn.body[:k] for n in ast.walk(s_) if isinstance(n, ast.Name)}
+            # a loop local may reappear outside only as a name that is re-bound later (`for e in event_vals`), never before
+            if (mine & before) or not (mine & outside) <= stores_after:
+                return
+            inline_temps(shell, U_LOOP_LOCALS, READS)
+            new = normalize.rename_locals(shell, U_LOOP_LOCALS)
+            if set(normalize.binding_order(new)) & before:
+                return
+            fn.body[k] = new.body[0]
+            return
+
+
+def _prepare(tree, rel):
+    """undo, in the anchored methods, what a behaviour-preserving refactor may have introduced: temporaries the pinned
+    source does not have, renamed locals, commuted numeric `+` / `*`, mirrored comparisons"""
+    for cls in tree.body:
+        if not isinstance(cls, ast.ClassDef):
+            continue
+        for k, fn in enumerate(cls.body):
+            pinned = PINNED_LOCALS.get(rel, {}).get(f"{cls.name}.{getattr(fn, 'name', None)}")
+            if pinned is None or not isinstance(fn, ast.FunctionDef):
+                continue
+            _VstackList().visit(fn)
+            if f"{cls.name}.{fn.name}" == "UtilityParity.load_data":
+                _prepare_u_loop(fn)
+            inline_temps(fn, pinned, READS)
+            fn = cls.body[k] = normalize.rename_locals(fn, pinned)
+            respell(fn, arith=PINNED_ARITH, tests=PINNED_TESTS)
+    return tree
 
 
 def _cls(tree, name):
@@ -100,12 +199,347 @@ def expr(node, env):
         return _lean_rat(_rat_of_const(node))
     if isinstance(node, ast.Call):
         f = ast.unparse(node.func)
-        if f == "np.abs" and len(node.args) == 1 and not node.keywords:
+        if f in ("np.abs", "abs", "np.absolute") and len(node.args) == 1 and not node.keywords:
             return f"(absR {expr(node.args[0], env)})"
         if f == "np.clip" and len(node.args) == 3 and not node.keywords:
             a, lo, hi = (expr(x, env) for x in node.args)
             return f"(clipR {a} {lo} {hi})"
     _bad(f"cannot translate {txt!r}")
+
+
+# ---------------------------------------------------------------------------------------------------------------------
+#  Behaviour-preserving re-spellings shared by the reductions lifters (oracle, lossrange, eg, egloop, egpredict).
+#  They live here because normalize.py is owned elsewhere; nothing below widens what a lifter accepts semantically.
+# ---------------------------------------------------------------------------------------------------------------------
+_SCOPES = (ast.Lambda, ast.ListComp, ast.SetComp, ast.DictComp, ast.GeneratorExp, ast.FunctionDef, ast.AsyncFunctionDef,
+           ast.ClassDef)
+
+
+def _eager_children(node):
+    """sub-expressions of `node` that are evaluated exactly once whenever `node` is (no lambda / comprehension bodies,
+    no conditionally evaluated operands)"""
+    if isinstance(node, _SCOPES):
+        return
+    if isinstance(node, ast.IfExp):
+        kids = [node.test]
+    elif isinstance(node, ast.BoolOp):
+        kids = node.values[:1]
+    else:
+        kids = list(ast.iter_child_nodes(node))
+    for k in kids:
+        if isinstance(k, _SCOPES):
+            continue
+        yield k
+        yield from _eager_children(k)
+
+
+def _eager_roots(st):
+    """the expressions a statement evaluates exactly once, before anything of a nested block"""
+    if isinstance(st, (ast.Assign, ast.AugAssign, ast.Expr, ast.Return)):
+        return [st]
+    if isinstance(st, ast.If):
+        return [st.test]
+    if isinstance(st, ast.For):
+        return [st.iter]
+    return []
+
+
+def _bound_bases(st):
+    """names a statement (re)binds or mutates through an attribute / subscript store, anywhere inside it"""
+    out = set()
+    for n in ast.walk(st):
+        if isinstance(n, (ast.Name, ast.Attribute, ast.Subscript)) and isinstance(n.ctx, (ast.Store, ast.Del)):
+            b = n
+            while isinstance(b, (ast.Attribute, ast.Subscript)):
+                b = b.value
+            if isinstance(b, ast.Name):
+                out.add(b.id)
+        elif isinstance(n, (ast.FunctionDef, ast.AsyncFunctionDef, ast.ClassDef)):
+            out.add(n.name)
+    return out
+
+
+def _chain(node):
+    """`a.b.c[...]...` -> ("a", "b", "c") (subscripts dropped); None when the base is not a plain name"""
+    while isinstance(node, ast.Subscript):
+        node = node.value
+    parts = []
+    while isinstance(node, ast.Attribute):
+        parts.append(node.attr)
+        node = node.value
+        while isinstance(node, ast.Subscript):
+            node = node.value
+    if not isinstance(node, ast.Name):
+        return None
+    return tuple([node.id] + parts[::-1])
+
+
+def _conflicts(st, e):
+    """may executing `st` change the value of the expression `e`?  (rebinding of a name read by `e`, or a store through
+    an attribute / subscript path that `e` reads, e.g. `self.U[k] = ...` against `self.U.dot(x)`; not against
+    `self.prob_event[k]`)"""
+    free = {m.id for m in ast.walk(e) if isinstance(m, ast.Name)}
+    inner = {id(m.value) for m in ast.walk(e) if isinstance(m, ast.Attribute)}
+    reads = {_chain(m) for m in ast.walk(e) if isinstance(m, (ast.Attribute, ast.Name)) and id(m) not in inner}
+    reads.discard(None)
+    for n in ast.walk(st):
+        if isinstance(n, ast.Name) and isinstance(n.ctx, (ast.Store, ast.Del)) and n.id in free:
+            return True
+        if isinstance(n, (ast.FunctionDef, ast.AsyncFunctionDef, ast.ClassDef)) and n.name in free:
+            return True
+        if isinstance(n, (ast.Attribute, ast.Subscript)) and isinstance(n.ctx, (ast.Store, ast.Del)):
+            w = _chain(n)
+            if w is None:
+                return True
+            if len(w) == 1:
+                if w[0] in free:
+                    return True     # `x[k] = ...` mutates the object `x` that `e` reads
+                continue
+            for r in reads:
+                k = min(len(r), len(w))
+                if r[:k] == w[:k]:
+                    return True
+    return False
+
+
+def _blocks(fn):
+    for n in ast.walk(fn):
+        for field in ("body", "orelse", "finalbody"):
+            v = getattr(n, field, None)
+            if isinstance(v, list) and v and isinstance(v[0], ast.stmt):
+                yield v
+
+
+def _reads_only(e, pure_calls):
+    """no call in `e` other than builtins normalize knows to be pure and the methods / functions named in `pure_calls`"""
+    for n in ast.walk(e):
+        if isinstance(n, ast.Call):
+            f = n.func
+            nm = f.attr if isinstance(f, ast.Attribute) else f.id if isinstance(f, ast.Name) else None
+            if nm in pure_calls or (isinstance(f, ast.Name) and nm in normalize.PURE_CALLS):
+                continue
+            return False
+        if isinstance(n, (ast.Await, ast.Yield, ast.YieldFrom, ast.NamedExpr, ast.Lambda)):
+            return False
+    return True
+
+
+def inline_temps(fn, keep, pure_calls=()):
+    """Inline, in place, the temporaries of `fn` that the pinned source does not have:  `t = E` where the local `t` is
+    not in `keep`, is bound exactly once in `fn`, and every read of it is evaluated exactly once by a LATER statement of
+    the same block (not inside a lambda / comprehension / nested block / conditionally evaluated operand).
+      * the statements between the definition and the last reader must be readers, temporaries of the same kind, or --
+        when E only reads (no call except builtins and the methods named in `pure_calls`) -- plain assignments; none of them may bind, or store through, a name that occurs in E (the last reader may);
+      * a temporary that is read more than once is only inlined when E only reads.
+    Under these conditions `t` denotes the value of E at every reader (the calls the reductions lifters anchor in --
+    `.sum()`, `.abs()`, `signed_weights()`, `gap()` ... -- are reads; the order in which the operands of ONE anchored
+    expression are evaluated is not part of what is lifted).  Everything else is left alone, so the lifter still sees
+    -- and refuses -- what it does not understand."""
+    keep = set(keep)
+    pure_calls = set(pure_calls)
+    for _ in range(64):
+        if len(normalize.binding_order(fn)) <= len(keep):
+            return fn       # no more locals than the pinned source: nothing was introduced (a renamed local is not a temporary)
+        stores, loads, banned = {}, {}, set()
+        for n in ast.walk(fn):
+            if isinstance(n, ast.Name):
+                d = loads if isinstance(n.ctx, ast.Load) else stores
+                d[n.id] = d.get(n.id, 0) + 1
+            elif isinstance(n, (ast.Global, ast.Nonlocal)):
+                banned.update(n.names)
+            elif isinstance(n, ast.arg):
+                banned.add(n.arg)
+            elif isinstance(n, (ast.FunctionDef, ast.AsyncFunctionDef, ast.ClassDef)) and n is not fn:
+                banned.add(n.name)
+            elif isinstance(n, ast.ExceptHandler) and n.name:
+                banned.add(n.name)
+            elif isinstance(n, ast.alias):
+                banned.add((n.asname or n.name).split(".")[0])
+
+        def is_temp(st):
+            return (isinstance(st, ast.Assign) and len(st.targets) == 1 and isinstance(st.targets[0], ast.Name)
+                    and st.targets[0].id not in keep and st.targets[0].id not in banned
+                    and stores.get(st.targets[0].id) == 1 and loads.get(st.targets[0].id, 0) >= 1
+                    and not any(isinstance(m, (ast.Await, ast.Yield, ast.YieldFrom, ast.NamedExpr)) for m in ast.walk(st.value)))
+
+        def try_inline(block, i):
+            st = block[i]
+            t, e = st.targets[0].id, st.value
+            free = {m.id for m in ast.walk(e) if isinstance(m, ast.Name)}
+            pure = _reads_only(e, pure_calls)
+            want = loads[t]
+            if want > 1 and not pure:
+                return False
+            sites = []
+            for j in range(i + 1, len(block)):
+                s = block[j]
+                eager = [x for root in _eager_roots(s) for x in [root] + list(_eager_children(root))]
+                eager_ids = {id(x) for x in eager}
+                here = []
+                for parent in eager:
+                    for field, val in ast.iter_fields(parent):
+                        for k, v in enumerate(val if isinstance(val, list) else [val]):
+                            if isinstance(v, ast.Name) and v.id == t and isinstance(v.ctx, ast.Load) and id(v) in eager_ids:
+                                here.append((parent, field, k if isinstance(val, list) else None))
+                total_here = sum(1 for m in ast.walk(s) if isinstance(m, ast.Name) and m.id == t)
+                if total_here != len(here):
+                    return False        # read somewhere that is not evaluated exactly once
+                sites += here
+                if len(sites) == want:
+                    break
+                if t in _bound_bases(s) or _conflicts(s, e):
+                    return False
+                if here or is_temp(s):
+                    continue
+                if pure and isinstance(s, (ast.Assign, ast.AugAssign)):
+                    continue
+                return False
+            if len(sites) != want:
+                return False
+            for n_, (parent, field, k) in enumerate(sites):
+                v = e if n_ == 0 else copy.deepcopy(e)
+                if k is None:
+                    setattr(parent, field, v)
+                else:
+                    getattr(parent, field)[k] = v
+            del block[i]
+            return True
+
+        done = False
+        for block in _blocks(fn):
+            for i, st in enumerate(block):
+                if is_temp(st) and try_inline(block, i):
+                    done = True
+                    break
+            if done:
+                break
+        if not done:
+            return fn
+    return fn
+
+
+def call_like(node, params, pinned_src):
+    """Re-spell the arguments of the call `node` the way the pinned call `pinned_src` spells them (which of the parameters
+    `params` -- the documented signature, in order -- are positional and in which order the keywords come).  Binding
+    arguments to parameters is what Python does, so the result is the same call.  Returned unchanged (so that the
+    literal comparison fails and the lifter refuses) when the arguments cannot be bound unambiguously."""
+    pin = ast.parse(pinned_src, mode="eval").body
+    if not isinstance(node, ast.Call) or not isinstance(pin, ast.Call):
+        return node
+    if any(isinstance(a, ast.Starred) for a in node.args) or any(k.arg is None for k in node.keywords):
+        return node
+    if len(node.args) > len(params):
+        return node
+    bound = dict(zip(params, node.args))
+    for k in node.keywords:
+        if k.arg in bound:
+            return node
+        bound[k.arg] = k.value
+    npos = len(pin.args)
+    if any(p not in bound for p in params[:npos]):
+        return node
+    new_args = [bound.pop(p) for p in params[:npos]]
+    order = [k.arg for k in pin.keywords]
+    kws = [ast.keyword(arg=a, value=bound.pop(a)) for a in order if a in bound]
+    kws += [ast.keyword(arg=a, value=v) for a, v in bound.items()]
+    return ast.copy_location(ast.Call(func=node.func, args=new_args, keywords=kws), node)
+
+
+_FLIP = {ast.Lt: ast.Gt, ast.Gt: ast.Lt, ast.LtE: ast.GtE, ast.GtE: ast.LtE, ast.Eq: ast.Eq, ast.NotEq: ast.NotEq}
+
+
+def _order_like(node, pin):
+    """`node` equals `pin` modulo commutativity: swap operands of `+` / `*` until it is spelled like `pin`"""
+    ck = normalize.commutative_key
+    if isinstance(node, ast.BinOp) and isinstance(pin, ast.BinOp) and type(node.op) is type(pin.op):
+        if ck(node.left) == ck(pin.left) and ck(node.right) == ck(pin.right):
+            pass
+        elif isinstance(node.op, (ast.Add, ast.Mult)) and ck(node.left) == ck(pin.right) and ck(node.right) == ck(pin.left):
+            node.left, node.right = node.right, node.left
+        else:
+            return node
+        node.left, node.right = _order_like(node.left, pin.left), _order_like(node.right, pin.right)
+    elif isinstance(node, ast.UnaryOp) and isinstance(pin, ast.UnaryOp):
+        node.operand = _order_like(node.operand, pin.operand)
+    return node
+
+
+class Respell(ast.NodeTransformer):
+    """Bring behaviour-preserving spellings back to the spelling of the pinned source (so that the literal
+    `ast.unparse(...) == "..."` matchers and the emitted text do not depend on them):
+      arith      numeric expressions that equal one of the pinned expressions up to swapping the operands of `+` / `*`
+      tests      comparisons `b > a` / `b == a` whose mirrored form is a pinned test; `and` / `or` whose operands are a
+                 permutation of the (side-effect free) operands of a pinned test
+      `not (a in b)` -> `a not in b`, `not (a is b)` -> `a is not b`
+      aug        `T = T <op> e` -> `T <op>= e` for the listed targets (rebinding vs in-place update of a local number /
+                 an unaliased Series)
+      calls      {method or function name: (parameter names, pinned call)}: keyword <-> positional (moments.call_like)
+    Nothing else is touched."""
+
+    def __init__(self, arith=(), tests=(), aug=(), calls=None):
+        self.arith = [ast.parse(a, mode="eval").body for a in arith]
+        self.arith_keys = {normalize.commutative_key(a): a for a in self.arith}
+        self.tests = {ast.unparse(ast.parse(t, mode="eval").body): ast.parse(t, mode="eval").body for t in tests}
+        self.aug = set(aug)
+        self.calls = calls or {}
+
+    def visit_BinOp(self, node):
+        node = self.generic_visit(node)         # bottom-up: operands inside calls first
+        pin = self.arith_keys.get(normalize.commutative_key(node))
+        if pin is not None:
+            return _order_like(node, pin)       # the source's own nodes (and source positions), operands in pinned order
+        return node
+
+    def visit_Compare(self, node):
+        node = self.generic_visit(node)
+        if len(node.ops) == 1 and type(node.ops[0]) in _FLIP and ast.unparse(node) not in self.tests:
+            mirror = ast.Compare(left=node.comparators[0], ops=[_FLIP[type(node.ops[0])]()], comparators=[node.left])
+            if ast.unparse(mirror) in self.tests:
+                return ast.copy_location(mirror, node)
+        return node
+
+    def visit_BoolOp(self, node):
+        node = self.generic_visit(node)
+        txt = sorted(ast.unparse(v) for v in node.values)
+        for pin in self.tests.values():
+            if isinstance(pin, ast.BoolOp) and type(pin.op) is type(node.op) and len(set(txt)) == len(txt) \
+                    and sorted(ast.unparse(v) for v in pin.values) == txt and all(normalize.is_pure(v) for v in node.values):
+                by = {ast.unparse(v): v for v in node.values}
+                node.values = [by[ast.unparse(v)] for v in pin.values]
+                break
+        return node
+
+    def visit_UnaryOp(self, node):
+        node = self.generic_visit(node)
+        o = node.operand
+        if isinstance(node.op, ast.Not) and isinstance(o, ast.Compare) and len(o.ops) == 1:
+            neg = {ast.In: ast.NotIn, ast.Is: ast.IsNot}.get(type(o.ops[0]))
+            if neg is not None:
+                return ast.copy_location(ast.Compare(left=o.left, ops=[neg()], comparators=o.comparators), node)
+        return node
+
+    def visit_Assign(self, node):
+        node = self.generic_visit(node)
+        if len(node.targets) == 1 and isinstance(node.value, ast.BinOp) and ast.unparse(node.targets[0]) in self.aug \
+                and ast.unparse(node.value.left) == ast.unparse(node.targets[0]):
+            return ast.copy_location(ast.AugAssign(target=node.targets[0], op=node.value.op, value=node.value.right), node)
+        return node
+
+    def visit_Call(self, node):
+        node = self.generic_visit(node)
+        f = node.func
+        nm = f.attr if isinstance(f, ast.Attribute) else f.id if isinstance(f, ast.Name) else None
+        for key in (ast.unparse(f), nm):
+            if key in self.calls:
+                params, pin = self.calls[key]
+                return call_like(node, params, pin)
+        return node
+
+
+def respell(fn, **kw):
+    Respell(**kw).visit(fn)
+    ast.fix_missing_locations(fn)
+    return fn
 
 
 def _assign_value(fn, target_text):
@@ -147,6 +581,10 @@ def _label_event(lam_call):
             and len(lam_call.args) == 1 and isinstance(lam_call.args[0], ast.Lambda)):
         _bad(f"label event: {ast.unparse(lam_call)}")
     body = lam_call.args[0].body
+    if isinstance(body, ast.JoinedStr) and len(body.values) == 3 and isinstance(body.values[1], ast.Constant) \
+            and [ast.unparse(v.value) if isinstance(v, ast.FormattedValue) and v.conversion == -1 and v.format_spec is None
+                 else None for v in (body.values[0], body.values[2])] == ["_LABEL", "v"]:
+        return body.values[1].value         # f"{_LABEL}={v}": the same string
     if not (isinstance(body, ast.BinOp) and isinstance(body.op, ast.Add) and ast.unparse(body.right) == "str(v)"
             and isinstance(body.left, ast.BinOp) and isinstance(body.left.op, ast.Add)
             and ast.unparse(body.left.left) == "_LABEL" and isinstance(body.left.right, ast.Constant)
@@ -167,7 +605,7 @@ def _where_label(node):
 
 
 def _all_event(node):
-    if ast.unparse(node) != "pd.Series(data=_ALL, index=y_train.index)":
+    if ast.unparse(call_like(node, SERIES, "f(data=1, index=1)")) != "pd.Series(data=_ALL, index=y_train.index)":
         _bad(f"'all' event: {ast.unparse(node)}")
 
 
@@ -216,7 +654,7 @@ def lift_moments(repo):
     g_signed = expr(_assign_value(gam, "g_signed"), {"self.U.T.dot(pred)": "utp", "self.total_samples": "n"})
     sw = expr(_return_value(_fn(_cls(up, "UtilityParity"), "signed_weights")),
               {"self.utility_diff": "ud", "self.U.dot(lambda_vec)": "ul"})
-    bnd = ast.unparse(_return_value(_fn(_cls(up, "UtilityParity"), "bound")))
+    bnd = ast.unparse(call_like(_return_value(_fn(_cls(up, "UtilityParity"), "bound")), SERIES, "f(a, index=1)"))
     if bnd != "pd.Series(self.eps, index=self.index)":
         _bad(f"bound(): {bnd!r}")
     # ---- events of the five moments -----------------------------------------------------
@@ -252,7 +690,20 @@ def lift_moments(repo):
     clm = _cls(bg, "ConditionalLossMoment")
     adjust_nodes = [n for n in ast.walk(_fn(clm, "signed_weights")) if isinstance(n, ast.Assign)
                     and ast.unparse(n.targets[0]) == "adjust"]
-    if len(adjust_nodes) != 2 or ast.unparse(adjust_nodes[0].value) != "pd.Series(1.0, index=self.index)":
+    # which branch is taken without multipliers: `if lambda_vec is None: <ones> else: <lambda / p>` (or the mirrored
+    # `if lambda_vec is not None:` with the branches exchanged)
+    sel = [n for n in _fn(clm, "signed_weights").body if isinstance(n, ast.If)]
+    if len(sel) != 1 or len(sel[0].body) != 1 or len(sel[0].orelse) != 1 or len(adjust_nodes) != 2:
+        _bad("ConditionalLossMoment.signed_weights: adjust branches changed")
+    tst = ast.unparse(sel[0].test)
+    if tst == "lambda_vec is None" and sel[0].body[0] is adjust_nodes[0] and sel[0].orelse[0] is adjust_nodes[1]:
+        pass
+    elif tst == "lambda_vec is not None" and sel[0].orelse[0] is adjust_nodes[1] and sel[0].body[0] is adjust_nodes[0]:
+        adjust_nodes.reverse()
+    else:
+        _bad(f"ConditionalLossMoment.signed_weights: adjust is not chosen by `lambda_vec is None`: {tst!r}")
+    if len(adjust_nodes) != 2 or \
+            ast.unparse(call_like(adjust_nodes[0].value, SERIES, "f(a, index=1)")) != "pd.Series(1.0, index=self.index)":
         _bad("ConditionalLossMoment.signed_weights: adjust assignments changed")
     adjust = expr(adjust_nodes[1].value, {"lambda_vec": "l", "self.prob_attr": "p"})
     pa = ast.unparse(_assign_value(_fn(clm, "load_data"), "self.prob_attr"))
@@ -262,7 +713,10 @@ def lift_moments(repo):
     sq = expr(_return_value(_fn(_cls(bg, "SquareLoss"), "eval")), env_l)
     ab = expr(_return_value(_fn(_cls(bg, "AbsoluteLoss"), "eval")), env_l)
     zo = _cls(bg, "ZeroOneLoss")
-    zo_init = ast.unparse(_fn(zo, "__init__").body[-1])
+    zo_last = _fn(zo, "__init__").body[-1]
+    if isinstance(zo_last, ast.Expr):
+        zo_last = ast.Expr(value=call_like(zo_last.value, ["min_val", "max_val"], "f(a, b)"))
+    zo_init = ast.unparse(zo_last)
     if [ast.unparse(b) for b in zo.bases] != ["AbsoluteLoss"] or zo_init != "super().__init__(0, 1)":
         _bad(f"ZeroOneLoss changed: {zo_init!r}")
 
